@@ -191,6 +191,9 @@ def check_case(case: dict) -> Outcome:
         negk = _neg_kinds(ref, cfg)
         try:
             got = _filter_atoms(decode(q, cfg), "")
+        except RecursionError:
+            out.skipped = "query nested too deep for the harness' decoder"
+            return out
         except DecodeError as e:
             sig = "C01:undecodable"
             if cfg["cidr"] and "cidr(" in q and _cidr_field_needs_quoting(doc):
